@@ -2,7 +2,7 @@
 # confirm_seed.sh <PROP> <N> : in the scratch worktree /tmp/wt-<PROP>, confirm that seed N
 #  (a) compiles and passes the existing suite, (b) its demo fails with the patch and passes without.
 # Output: /tmp/wt-<PROP>/SEED/seed<N>/confirm.log  (last line: CONFIRMED or NOT-CONFIRMED: reason)
-P=$1; N=$2; WT=/tmp/wt-$P; S=$WT/SEED/seed$N; LOG=$S/confirm.log
+P=$1; N=$2; PFX=${3:-/tmp/wt-}; WT=$PFX$P; S=$WT/SEED/seed$N; LOG=$S/confirm.log
 export CARGO_NET_OFFLINE=true CARGO_TARGET_DIR=$WT/target
 cd $WT || exit 2
 git checkout -q -- . ; rm -f sudachi/tests/zz_seed_demo.rs
